@@ -67,12 +67,20 @@ def parseOp : List String → Option Op
   | ["abort"] => some .abort
   | ["sync"] => some .abort      -- Connection.sync() = transaction_manager.begin(): aborts, new transaction
   | ["sp"] => some .savepoint
+  | ["spo"] => some .savepoint      -- transaction.savepoint(optimistic=True): the same for a ZODB connection
   | ["rb", n] => n.toNat?.map .rollback
   | ["close"] => some .close
   | ["open"] => some .open_
   | ["ext", i, v] => do pure (.ext (← i.toNat?) (← v.toNat?))
   | ["peek", i] => i.toNat?.map .peek
   | _ => none
+
+/-- `Connection.cacheMinimize()`: every cached object that is not changed becomes a ghost -/
+def minimizeAll (s : State) : State :=
+  s.cache.keys.foldl (fun (s : State) (k : Oid) =>
+    match s.cache.get k with
+    | some i => if (s.objs i).status = .uptodate then setO s i { s.objs i with status := .ghost } else s
+    | none => s) s
 
 structure DState where
   n : Nat
@@ -84,6 +92,47 @@ def connStep (d : DState) (toks : List String) : DState × String :=
     match n.toNat? with
     | some n => ({ n := n, s := init }, "ok | " ++ vector n init)
     | none => (d, "bad-op")
+  | ["gc"] =>
+    let s' := minimizeAll d.s
+    ({ d with s := s' }, "ok | " ++ vector d.n s')
+  | ["get", i] =>
+    -- `conn.get(obj._p_oid) is obj`
+    match i.toNat? with
+    | none => (d, "bad-op")
+    | some i =>
+      let o := d.s.objs i
+      let r := if o.oid.isNone then "none" else if !d.s.opened then "err:ConnState" else "same"
+      (d, r ++ " | " ++ vector d.n d.s)
+  | ["xadd", i] =>
+    -- another connection tries to add the object: refused when it belongs to this one
+    match i.toNat? with
+    | none => (d, "bad-op")
+    | some i =>
+      (d, (if (d.s.objs i).jar then "err:InvalidObjectReference" else "ok") ++ " | " ++ vector d.n d.s)
+  | ["touch", i] =>
+    -- `obj._p_changed = True`: registered with its state as it is
+    match i.toNat? with
+    | none => (d, "bad-op")
+    | some i =>
+      let a := access d.s i
+      let (s', out) := step d.n d.s (.modify i (a.1.objs i).val)
+      match out with
+      | .err e => ({ d with s := s' }, "err:" ++ errStr e ++ " | " ++ vector d.n s')
+      | _ => ({ d with s := s' }, "ok | " ++ vector d.n s')
+  | ["spf", "pickle", k] =>
+    -- transaction.savepoint() while the state of object k cannot be pickled
+    match k.toNat? with
+    | none => (d, "bad-op")
+    | some k =>
+      let joined := !d.s.needsToJoin
+      let (s1, out) := step d.n { d.s with fail := .pickle k } .savepoint
+      let s' := { s1 with fail := .none }
+      match out with
+      | .failed e =>
+        let s'' := txnAbortAfterFailure joined s'
+        ({ d with s := s'' },
+         "fail:" ++ errStr e ++ tmpFlag s'' ++ " | " ++ vector d.n s' ++ " | " ++ vector d.n s'')
+      | _ => ({ d with s := s' }, "ok | " ++ vector d.n s')
   | ["readcur", _] =>
     -- Connection.readCurrent(obj) on an object that is NEW in this transaction (serial 0): recorded nowhere
     (d, "ok | " ++ vector d.n d.s)
